@@ -8,10 +8,15 @@ def run(ctx):
                 "from MeridianArc, azimuths 0/180) and equatorial pairs up to 178 deg (a * dlambda) on 4 shipped + 2 random ellipsoids; "
                 "own laws (swap symmetry, common longitude offset incl. +-360 and pairs straddling +-180, coincident points, azimuth "
                 "range) and closure with the direct routine on samples in every case of the TLC-enumerated skeleton latitude band x "
-                "latitude band x longitude-difference class x ellipsoid, spherical separation <= 177.5 deg; distinct = distinct events")
+                "latitude band x longitude-difference class x ellipsoid, spherical separation <= 177.5 deg; the EXACT geodesic "
+                "(GeodesicOracle: Bessel/Helmert integrals by Romberg quadrature inside the specification) followed from point 1 with the "
+                "returned distance and azimuth must arrive within 2 mm of point 2 with the returned reverse azimuth (IGE events, a third of the "
+                "skeleton cases in quick, every case in thorough, plus nearly antipodal pairs 177..177.96 deg apart); distinct = distinct events")
     ctx.assumptions += ["closure uses the direct routine as an instrument, guarded: a closure failure is charged to C05 only when the "
                         "direct routine is self-consistent (reversal) on that very line, otherwise it is attributed to C04",
-                        "NOT decided: accuracy of oblique lines beyond what closure with the direct routine shows",
+                        "exact-geodesic clauses do not apply (reported not_applicable by the specification) to lines whose cos(alpha0) < 1e-3, "
+                        "i.e. running within 0.06 deg of the equator's direction; the equator itself is the IEQ closed form",
+                        "the four shipped ellipsoids are judged on their PUBLISHED constants (spec/Ellipsoids.tla)",
                         "azimuth tolerances 'moves the far end by 1 mm' use the lower bound 0.99 * 6.3e6 * sin(sigma) of the reduced length"]
 
 
